@@ -126,6 +126,13 @@ def main():
         run.corr("slice_py(translator)", [a, b, c, L], impl, parse_sx(mp))
         run.corr("slice_spec(cpython)", [a, b, c, L], cp, parse_sx(ms))
         # property oracle: same len(range(...)) on both paths (what _getitem_batch_size uses)
+        if impl[0] == "ok":
+            # what the index arithmetic is for: the positions it enumerates are exactly what Python slicing selects
+            # (theorems slice_indices_in_bounds / slice_len_bounds say they are valid positions, for every length)
+            if list(range(*impl[1:])) != list(range(L))[s]:
+                run.oracle_fail("slice_elements", [a, b, c, L], f"range(*_slice_indices)={list(range(*impl[1:]))} seq[slice]={list(range(L))[s]}", "slice_elements")
+            else:
+                run.oracle_ok("slice_elements")
         if impl[0] == "ok" and cp[0] == "ok":
             if len(range(*impl[1:])) != len(range(*cp[1:])):
                 run.oracle_fail("slice_indices", [a, b, c, L], f"_slice_indices={impl[1:]} slice.indices={cp[1:]}", "slice_len")
